@@ -4,10 +4,13 @@
      pres  : comma separated new clock values returned by the successive presolve calls, or `-`
      outs  : one letter per `_solver_helper` call  c=converged i=iterLimit s=singular l=lineSearch t=timeLimit o=other, or `-`
      posts : one digit per post-solve phase (1 = changes made), or `-`
-   ->  <halt> times=<..> rows=<..> acc=<..> nsolve=<n> left=<pres>,<outs>,<posts> starved=<n> contract=<ok|broken@i> fuel=<ok|cap>
+   ->  <halt> times=<..> rows=<..> acc=<..> nsolve=<n> left=<pres>,<outs>,<posts> starved=<n> contract=<ok|broken@i> fuel=<ok|cap> interp=<same|DIFFERS>
+
+   The run is the interpretation (`execS`) of the GENERATED loop program `Gen.shape`; `interp` compares it with the hand-written `step`.
 
    `rows` are the node rows (= link rows, checked) identified by the number of solver calls made when they were saved. -/
 import WntrModel.Model.RunLoop
+import WntrModel.Gen.RunLoopShape
 open Wntr.RunLoop
 
 def parseInts (s : String) : Option (List Int) :=
@@ -36,6 +39,11 @@ def haltName : Option Halt → String
   | some .raiseTrials => "raiseTrials"
   | some .raiseAlreadySolved => "raiseAlreadySolved"
 
+/-- early-exit loop over the GENERATED program (`stepS Gen.shape`; equal to `step` by Props/C16 `generated_step_is_model`) -/
+def runToS (cfg : Cfg) : Nat → St Trace Nat Nat → St Trace Nat Nat
+  | 0, s => s
+  | n + 1, s => if s.halt.isSome then s else runToS cfg n (stepS Gen.shape traceWorld cfg s)
+
 /-- executable contract check along the run: index of the first pass whose presolve leaves `(prev, cur]` -/
 def contractBreach (cfg : Cfg) : Nat → Nat → St Trace Nat Nat → Option Nat
   | 0, _, _ => none
@@ -54,13 +62,15 @@ def handle (line : String) : String :=
     | some hyd, some rep, some dur, some mt, some st, some pt, some cap, some pres, some outs, some posts =>
       let cfg : Cfg := { hyd, report := rep, duration := dur, maxTrials := mt, backup := bk == "1", convErr := ce == "1" }
       let w : Trace := { pres, outs, posts, nsolved := 0, starved := 0 }
-      let s0 : St Trace Nat Nat := init w st pt
+      let s0 : St Trace Nat Nat := enterS Gen.shape cfg w st pt
       let need := fuel cfg s0.simTime s0.prevTime
       let f := min need cap
-      let s := runTo traceWorld cfg f s0
+      let s := runToS cfg f s0
+      let sHand := runTo traceWorld cfg f (enter cfg w st pt)
+      let same := s.times == sHand.times && s.nodeRows == sHand.nodeRows && s.nSolve == sHand.nSolve && haltName s.halt == haltName sHand.halt
       let rowsOk := s.nodeRows == s.linkRows
       let breach := contractBreach cfg f 0 s0
-      s!"{haltName s.halt} times={showInts s.times} rows={if rowsOk then showNats s.nodeRows else "MISMATCH"} acc={showInts s.accepted} nsolve={s.nSolve} left={s.w.pres.length},{s.w.outs.length},{s.w.posts.length} starved={s.w.starved} contract={match breach with | none => "ok" | some i => s!"broken@{i}"} fuel={if need ≤ cap then "ok" else "cap"}"
+      s!"{haltName s.halt} times={showInts s.times} rows={if rowsOk then showNats s.nodeRows else "MISMATCH"} acc={showInts s.accepted} nsolve={s.nSolve} left={s.w.pres.length},{s.w.outs.length},{s.w.posts.length} starved={s.w.starved} contract={match breach with | none => "ok" | some i => s!"broken@{i}"} fuel={if need ≤ cap then "ok" else "cap"} interp={if same then "same" else "DIFFERS"}"
     | _, _, _, _, _, _, _, _, _, _ => "bad-op"
   | _ => "bad-op"
 
